@@ -32,16 +32,25 @@ func jobs(ctx *vrun.Ctx) []*job {
 	// classes, v1 fallbacks; every single fault at every position.  thorough
 	// replays every edge, quick a seeded sample of the path cover.
 	hs := base()
-	hs.Scenarios = handshakeScenarios(seed)
+	hs.Scenarios = handshakeScenarios(seed, ctx.Thorough)
+	hs.TrackNonces = false // keeps the dumped states small; nonce uniqueness is checked by the -check jobs
 	if !ctx.Thorough {
 		hs.FaultSeqs = seqRange(0, 4) // handshake units; packet faults are covered by stream-graph
 	}
-	js = append(js, &job{name: "hs-graph", p: hs, mode: "graph", maxPaths: pick(3000, 0)})
+	js = append(js, &job{name: "hs-graph", p: hs, mode: "graph", maxPaths: pick(2400, 0)})
+
+	// every pair of garbage-length classes without faults, every edge
+	nf := base()
+	nf.MaxFaults = 0
+	nf.TrackNonces = false
+	nf.Scenarios = allGarbagePairs(seed)
+	js = append(js, &job{name: "hs-nofault", p: nf, mode: "graph"})
 
 	// stream graph: both directions, ignore flags, rekey interval 3, one fault.
 	sg := base()
 	sg.Ignore = []bool{false, true}
 	sg.MaxApp, sg.MaxFlight = pick(2, 3), 2
+	sg.TrackNonces = false
 	sg.Scenarios = []scen{{gI: G[rng.Intn(4)], gR: G[1+rng.Intn(3)], dI: 1, dR: 0, hello: "v2"}}
 	js = append(js, &job{name: "stream-graph", p: sg, mode: "graph", maxPaths: pick(3000, 0)})
 
@@ -96,7 +105,8 @@ func jobs(ctx *vrun.Ctx) []*job {
 	long.Sizes = []int{0, 1, 40, 1000}
 	long.MaxApp, long.MaxFlight, long.MaxFaults = 520, 3, 0
 	long.TrackNonces = false
-	long.Scenarios = []scen{{gI: G[rng.Intn(6)], gR: G[rng.Intn(5)], dI: rng.Intn(3), dR: rng.Intn(3), hello: "v2"}}
+	// (not 4095: the known terminator-scan finding would end the session in the handshake)
+	long.Scenarios = []scen{{gI: G[rng.Intn(5)], gR: G[rng.Intn(5)], dI: rng.Intn(3), dR: rng.Intn(3), hello: "v2"}}
 	js = append(js, &job{name: "long", p: long, mode: "sim", realRI: true, needLong: true,
 		sim: &tlc.Sim{Num: pick(3, 16), Depth: 2800, Seed: seed*17 + 5}})
 
